@@ -131,3 +131,62 @@ def ser_expr(e: Expression, name=num, pop=None) -> dict:
 
 def exc_class(exc: BaseException) -> str:
     return type(exc).__name__
+
+
+# ----------------------------------------------------------------------------- terms -> y0 objects (raw constructors)
+
+
+def pop_var(k: int):
+    from y0.dsl import Population
+
+    return Population(f"π{k}")
+
+
+def pop_num(p) -> int:
+    name = p.name
+    if name.startswith("π") and name[1:].isdigit():
+        return int(name[1:])
+    if name == "pi*":
+        return 0
+    raise KeyError(name)
+
+
+def de_var(v: dict) -> Variable:
+    """Build a variable with the public operators (+X, -X, Y @ X), as a user of the DSL would."""
+    x = Variable(f"{PREFIX}{v['n']}")
+    if v["s"] == 1:
+        x = -x
+    elif v["s"] == 2:
+        x = +x
+    if v["iv"]:
+        ivs = [+Variable(f"{PREFIX}{i[0]}") if i[1] == 2 else -Variable(f"{PREFIX}{i[0]}") for i in v["iv"]]
+        star = x.star
+        x = Variable(f"{PREFIX}{v['n']}") @ ivs
+        if star is not None:
+            x = +x if star else -x
+    return x
+
+
+def de_expr(t: dict) -> Expression:
+    """Build the y0 object for a term with the *raw* constructors (no safe()/operator normalisation)."""
+    from y0.dsl import Distribution
+
+    k = t["t"]
+    if k == "P":
+        dist = Distribution(children=tuple(de_var(v) for v in t["ch"]), parents=tuple(de_var(v) for v in t["pa"]))
+        if t.get("pop", 0):
+            return PopulationProbability(population=pop_var(t["pop"]), distribution=dist)
+        return Probability(dist)
+    if k == "M":
+        return Product(tuple(de_expr(x) for x in t["es"]))
+    if k == "F":
+        return Fraction(de_expr(t["a"]), de_expr(t["b"]))
+    if k == "S":
+        return Sum(expression=de_expr(t["e"]), ranges=frozenset(var(i) for i in t["r"]))
+    if k == "1":
+        return One()
+    if k == "0":
+        return Zero()
+    if k == "Q":
+        return QFactor(domain=frozenset(var(i) for i in t["dom"]), codomain=frozenset(var(i) for i in t["cod"]))
+    raise TypeError(k)
